@@ -321,7 +321,8 @@ def _ill_conditioned(prog, env, v):
         raise
     except Exception:
         return True         # exactly: a division by zero or the like
-    if isinstance(ve, (int, Fraction)) and not isinstance(ve, bool):
+    if isinstance(ve, (int, Fraction, float)) and not isinstance(ve, bool):
+        # (a float here: the exact base went through a fractional power)
         try:
             return abs(float(ve) - v) > 1e-9 * max(1.0, abs(v))
         except OverflowError:
